@@ -793,6 +793,14 @@ func genEdges(a *Args, rng *Rng) []caseSpec {
 		"name-hidden":        func(b *hb) srcSpec { return fileSrc("notation-.hidden", 0o755, b.ok(".hidden", "1.0.0")) },
 		"name-space-end":     func(b *hb) srcSpec { return fileSrc("notation-foo ", 0o755, b.ok("foo", "1.0.0")) },
 		"name-space-end-ok":  func(b *hb) srcSpec { return fileSrc("notation-foo ", 0o755, b.ok("foo ", "1.0.0")) },
+		// notation-. / notation-.. / notation-a\b do not follow the notation-{plugin-name} format (30cc14e):
+		// neither executable candidates nor chmod candidates, just regular files that are copied along
+		"dotname-exec-beside":    func(b *hb) srcSpec { return dirSrc("pkg", ef(bin(".."), 0o755, b.ok("..", "9.0.0")), ef(bin("foo"), 0o755, b.ok("foo", "1.0.0"))) },
+		"dotname-nonexec-beside": func(b *hb) srcSpec { return dirSrc("pkg", ef(bin("."), 0o644, b.ok(".", "9.0.0")), ef(bin("foo"), 0o644, b.ok("foo", "1.0.0"))) },
+		"dotname-exec-alone":     func(b *hb) srcSpec { return dirSrc("pkg", ef(bin(".."), 0o755, b.ok("..", "1.0.0")), ef("LICENSE", 0o644, b.data("lic", 1))) },
+		"dotname-nonexec-alone":  func(b *hb) srcSpec { return dirSrc("pkg", ef(bin("."), 0o644, b.ok(".", "1.0.0"))) },
+		"backslash-beside":       func(b *hb) srcSpec { return dirSrc("pkg", ef(bin("a\\b"), 0o755, b.ok("a\\b", "9.0.0")), ef(bin("foo"), 0o644, b.ok("foo", "1.0.0"))) },
+		"dotname-file":           func(b *hb) srcSpec { return fileSrc(bin(".."), 0o755, b.ok("..", "1.0.0")) },
 		// hidden files are files
 		"dotfiles": func(b *hb) srcSpec {
 			return dirSrc("pkg", ef(".gitignore", 0o644, b.data("gi", 1)), ef(".notation-foo", 0o755, b.ok("foo", "3.0.0")), ef(bin("foo"), 0o755, b.ok("foo", "1.0.0")), ef("~cache", 0o600, b.data("c", 1)))
